@@ -28,8 +28,9 @@ def run(ctx, crate):
     rule_fraction_clamp(ctx, crate)
     rule_getters(ctx, crate)
     # "position() equals the value defined by the history of ... finish calls": per-variant effect of finishing on the position
-    from .c04 import rule_finish_arms
+    from .c04 import rule_finish_arms, rule_on_finish_writers
     rule_finish_arms(ctx, crate)
+    rule_on_finish_writers(ctx, crate)      # ... every time a bar is finished, also after a reset
     Lg.run_ledger(ctx, crate, "C07", "R-POS-LEDGER", ENTRIES, STOP, floor_edges=6)
 
 
